@@ -107,7 +107,8 @@ CHECKS = {
                 jobs=lambda t: J("numenum", "prod-hsw", []) + J("numenum", "asan-hsw", []) + (J("numenum", "prod-wsm", []) if t == "thorough" else []),
                 rule="number spellings of families N1..N6 parsed as root, array element and object member: integer that fits -> exact integer kind; otherwise IsDouble with the bit pattern of glibc strtod; overflow -> kParseErrorInfinity. For the halfway families (exact midpoints between adjacent doubles, one unit below/above, re-spelled with the point at every position and up to 1100 mantissa digits) the expected double is computed exactly by big-integer arithmetic in the harness and glibc is cross-checked against it."),
     "C07": dict(level="exploration", engine="ftoaenum",
-                jobs=lambda t: J("ftoaenum", "prod-hsw", []) + (J("ftoaenum", "asan-hsw", ["--only", "D2_decimal_table_rows"]) + J("ftoaenum", "asan-hsw", ["--only", "D3b_format_switch_points"], label="asan-hsw/D3b")),
+                jobs=lambda t: J("ftoaenum", "prod-hsw", []) + (J("ftoaenum", "asan-hsw", ["--only", "D2_decimal_table_rows"]) + J("ftoaenum", "asan-hsw", ["--only", "D3b_format_switch_points"], label="asan-hsw/D3b") +
+                J("serenum", "asan-hsw", ["--only", "T5_number_packing"], label="asan-hsw/serializer-number-reserve")),
                 budget=dict(quick=100, thorough=2400),
                 rule="F64toa output per double: JSON number with fraction or exponent, <= 32 bytes, sign kept; strtod(out)==v and this library parses it back to the same bits; minimal digit count (neither (n-1)-digit grid neighbour reads back); closest among the shortest (exact big-integer comparison, ties accept either). Families: every binary exponent x boundary significand patterns, every decimal table row (d*10^k +-3ulp), all small integers, format switch points, single-precision values (thorough: all 2^32)."),
     "C16": dict(level="model_checking", engine="allocexplore",
